@@ -209,12 +209,16 @@ class Instrument:
         R = apischema.recursion
 
         def recursion_cache(checker_cls):
+            # stands for the lru_cache'd factory of the library (`return {}`) with instrumented dicts; like functools.lru_cache
+            # (bounded form) a miss computes the value outside any lock of its own: a second thread can miss meanwhile, the first
+            # value stored stays and the late caller goes away with the one it computed
             d = self.caches.get(checker_cls)
             if d is None:
+                sched.yield_point("rc.miss")
                 d = YieldingDict()
                 d.sched = sched
                 d.name = "rc"
-                self.caches[checker_cls] = d
+                self.caches.setdefault(checker_cls, d)
             return d
 
         self._set(R, "recursion_cache", recursion_cache)
